@@ -105,7 +105,66 @@ type answer struct {
 	rej    string
 }
 
+// canonNum is the canonical text of a number by its exact numeric value, whatever the tag it came back
+// with: an integer that int64/uint64 can hold is written as that integer, everything else as the shortest
+// text of the float64. Used for columns that hold several kinds in the dataset, where per-block
+// consolidation decides whether a value is stored as integer, float or decimal text.
+func canonNum(v sut.TV) (string, bool) {
+	raw := strings.TrimSpace(v.Raw())
+	switch v.Kind() {
+	case 'i', 'u', 's':
+		if i, err := strconv.ParseInt(raw, 10, 64); err == nil {
+			return "#" + strconv.FormatInt(i, 10), true
+		}
+		if u, err := strconv.ParseUint(raw, 10, 64); err == nil {
+			return "#" + strconv.FormatUint(u, 10), true
+		}
+		if v.Kind() != 's' {
+			return "#" + raw, true
+		}
+	}
+	var f float64
+	switch v.Kind() {
+	case 'f':
+		f, _ = v.Float()
+	case 's':
+		pf, err := strconv.ParseFloat(raw, 64)
+		if err != nil {
+			return "", false
+		}
+		f = pf
+	default:
+		return "", false
+	}
+	if math.IsNaN(f) || math.IsInf(f, 0) {
+		return "", false
+	}
+	if f == math.Trunc(f) {
+		if f >= -9223372036854775808.0 && f < 9223372036854775808.0 {
+			return "#" + strconv.FormatInt(int64(f), 10), true
+		}
+		if f >= 0 && f < 18446744073709551616.0 {
+			return "#" + strconv.FormatUint(uint64(f), 10), true
+		}
+	}
+	return "#" + strconv.FormatFloat(f, 'g', -1, 64), true
+}
+
 func canonVal(v sut.TV, mixedCol bool) string {
+	if mixedCol {
+		// a number of a mixed column may be stored as integer, float or as its decimal text depending on
+		// which values share its block (documented consolidation; C01 grants it) — and the open finding
+		// C01-numtext-to-number turns numeric text into numbers the same way: compare by numeric value
+		switch v.Kind() {
+		case 'i', 'u', 'f', 's':
+			if c, ok := canonNum(v); ok {
+				return c
+			}
+		}
+		if v.Kind() == 's' && (v.Raw() == "true" || v.Raw() == "false") {
+			return "b" + v.Raw()
+		}
+	}
 	switch v.Kind() {
 	case 'i', 'u':
 		return "#" + v.Raw()
@@ -116,20 +175,6 @@ func canonVal(v sut.TV, mixedCol bool) string {
 		}
 		return "#" + strconv.FormatFloat(f, 'g', -1, 64)
 	case 's':
-		if mixedCol {
-			// a number of a mixed column may be stored as its decimal text depending on which values
-			// share its block (documented consolidation; C01 grants it) — and the open finding
-			// C01-numtext-to-number turns numeric text into numbers the same way
-			if f, err := strconv.ParseFloat(strings.TrimSpace(v.Raw()), 64); err == nil && !math.IsNaN(f) && !math.IsInf(f, 0) {
-				if f == math.Trunc(f) && math.Abs(f) < 1e15 {
-					return "#" + strconv.FormatFloat(f, 'f', -1, 64)
-				}
-				return "#" + strconv.FormatFloat(f, 'g', -1, 64)
-			}
-			if v.Raw() == "true" || v.Raw() == "false" {
-				return "b" + v.Raw()
-			}
-		}
 		return "$" + v.Raw()
 	case 'b':
 		return "b" + v.Raw()
@@ -451,10 +496,11 @@ func checkC03(cs *c03Case, o *pt.Obs) error {
 					continue
 				}
 				// known finding C03-agiletree: a group-by answered from the pre-aggregated tree (columns
-				// registered by earlier stats queries, aggregations and PQS on, segment rotated) is wrong
-				// for float measures (sum/min/max/avg = 0), values()/list() (counts instead of values),
-				// float/bool by-keys and a measure column that is also a by-column (no groups at all).
-				// Integer measures over string by-keys are still compared.
+				// registered by earlier stats queries, aggregations and PQS on, segment rotated; only
+				// count/sum/min/max/avg/range are served from it) is wrong for float measures
+				// (sum/min/max/avg = 0), float/bool by-keys and a measure column that is also a by-column
+				// (no groups at all). Integer measures over string by-keys are still compared, and so is
+				// every query with a function the tree does not keep.
 				if (k.PreQuery || k.PreHalf) && !k.AggsOff && !k.PQSOff && rot >= 1 && len(st.By) > 0 && pt.KnownFindingOpen("C03-agiletree") {
 					if !treeSafe(st, kinds) {
 						o.Known("C03-agiletree")
@@ -462,6 +508,7 @@ func checkC03(cs *c03Case, o *pt.Obs) error {
 					}
 					o.Class("agiletree_compared")
 				}
+				var grpEvs map[string][]*model.Event // events of the dataset per answer group (computed on demand)
 				// groups with a null by-value are reported by some paths only (not stated): drop them
 				na, nb := 0, 0
 				for key := range a.groups {
@@ -492,9 +539,26 @@ func checkC03(cs *c03Case, o *pt.Obs) error {
 						}
 						va, oka := ma[m.Key()]
 						vb, okb := mb[m.Key()]
-						if oka != okb || (oka && !measureSame(m.Key(), va, vb)) {
-							return fmt.Errorf("%s: group %q measure %s: ref=%q other=%q", where, key, m.Key(), va, vb)
+						if oka == okb && (!oka || measureSame(m.Key(), va, vb)) {
+							continue
 						}
+						if grpEvs == nil {
+							grpEvs = groupEvents(evs, st, ctx)
+						}
+						if oka && okb && (m.Fn == "earliest" || m.Fn == "latest") && (isIntZero(va) || isIntZero(vb)) &&
+							(kinds[m.Field][model.KBool] || lacksField(grpEvs[key], m.Field)) &&
+							pt.KnownFindingOpen("C04-earliest-latest-null-bool") {
+							// known finding: integer 0 is reported when the first/last event of the group lacks the
+							// field (or the field is boolean) — but only if the column exists in that event's block,
+							// so the wrong 0 appears under one layout and the right value under another
+							o.Known("C04-earliest-latest-null-bool")
+							continue
+						}
+						if oka && okb && m.Fn == "list" && listSameTruncated(va, vb, grpEvs[key], m.Field) {
+							o.Class("list_truncated")
+							continue
+						}
+						return fmt.Errorf("%s: group %q measure %s: ref=%q other=%q", where, key, m.Key(), va, vb)
 					}
 				}
 				if len(a.groups) >= 2 && knobCount >= 2 {
@@ -505,6 +569,170 @@ func checkC03(cs *c03Case, o *pt.Obs) error {
 		}
 	}
 	return nil
+}
+
+// groupEvents partitions the events a stats query matches by the key under which runLayout files the
+// group they belong to: "#<bucket start>" for timechart, the canonical by-value (one by-column), the sorted
+// col=value list (several), "*" without a by-clause. Events lacking a by-field belong to no (non-null) group.
+func groupEvents(evs []*model.Event, st *model.StatsQuery, ctx *model.Ctx) map[string][]*model.Event {
+	out := map[string][]*model.Event{}
+	lo, _ := lq.TsBounds(evs)
+	start := lo - 1 // the query's start time: time buckets are aligned on it
+	for _, e := range evs {
+		if st.Filter != nil && st.Filter.EvalIn(e, ctx) != model.True {
+			continue
+		}
+		var key string
+		switch {
+		case st.Timechart:
+			if st.SpanMs == 0 || e.Ts < start {
+				continue
+			}
+			key = "#" + strconv.FormatUint(start+(e.Ts-start)/st.SpanMs*st.SpanMs, 10)
+		case len(st.By) == 0:
+			key = "*"
+		default:
+			flat, _ := e.Flat()
+			parts := make([]string, 0, len(st.By))
+			for _, b := range st.By {
+				v, ok := flat[b]
+				if !ok || v.K == model.KNull {
+					parts = nil
+					break
+				}
+				parts = append(parts, canonModelVal(v))
+			}
+			if parts == nil {
+				continue
+			}
+			key = parts[0]
+			if len(parts) > 1 {
+				for i := range parts {
+					parts[i] = st.By[i] + "=" + parts[i]
+				}
+				sort.Strings(parts)
+				key = strings.Join(parts, "\x1f")
+			}
+		}
+		out[key] = append(out[key], e)
+	}
+	return out
+}
+
+// canonModelVal is canonVal(v, false) for a value of the dataset.
+func canonModelVal(v model.Val) string {
+	switch v.K {
+	case model.KInt:
+		return "#" + strconv.FormatInt(v.I, 10)
+	case model.KFloat:
+		if v.F == math.Trunc(v.F) && math.Abs(v.F) < 1e15 {
+			return "#" + strconv.FormatFloat(v.F, 'f', -1, 64)
+		}
+		return "#" + strconv.FormatFloat(v.F, 'g', -1, 64)
+	case model.KStr:
+		return "$" + v.S
+	case model.KBool:
+		return "b" + strconv.FormatBool(v.B)
+	}
+	return ""
+}
+
+func lacksField(evs []*model.Event, field string) bool {
+	for _, e := range evs {
+		flat, _ := e.Flat()
+		if v, ok := flat[field]; !ok || v.K == model.KNull {
+			return true
+		}
+	}
+	return false
+}
+
+func isIntZero(v sut.TV) bool {
+	if v.Kind() != 'i' && v.Kind() != 'u' {
+		return false
+	}
+	i, ok := v.Int()
+	return ok && i == 0
+}
+
+// listLimit is the number of values list() keeps (sutils.MAX_SPL_LIST_SIZE).
+const listLimit = 100
+
+// listSameTruncated: list(f) keeps the first 100 values in processing order; neither the statement nor the
+// documentation fixes which 100 of a larger group these are (the repository's own functional tests use
+// list() only where all values are equal). When the group holds more than 100 values of f and the reference
+// answer is at the limit, the other answer must have the same length and be a sub-multiset of the group's
+// values. In every other case the ordinary multiset comparison (measureSame) decides.
+func listSameTruncated(ref, other sut.TV, grp []*model.Event, field string) bool {
+	la, oka := listElems(ref)
+	lb, okb := listElems(other)
+	if !oka || !okb || len(la) < listLimit || len(la) != len(lb) {
+		return false
+	}
+	full := map[string]int{}
+	n := 0
+	var kind model.Kind
+	for _, e := range grp {
+		flat, _ := e.Flat()
+		if v, ok := flat[field]; ok && v.K != model.KNull {
+			if n > 0 && v.K != kind {
+				return false // mixed column: not compared at all (unstableMeasure)
+			}
+			kind = v.K
+			full[canonListElem(model.CanonText(v), kind)]++
+			n++
+		}
+	}
+	if n <= listLimit {
+		return false
+	}
+	for _, x := range lb {
+		c := canonListElem(x, kind)
+		if full[c] == 0 {
+			return false
+		}
+		full[c]--
+	}
+	return true
+}
+
+func listElems(v sut.TV) ([]string, bool) {
+	xs, ok := v.List()
+	if !ok {
+		return nil, false
+	}
+	if v.Kind() == 'L' {
+		out := make([]string, len(xs))
+		for i, x := range xs {
+			out[i] = sut.TV(x).Raw()
+		}
+		return out, true
+	}
+	return xs, true
+}
+
+// canonListElem: elements of list() are texts; floats are rendered with six decimals (open finding
+// C04-float-text-6dp) and booleans as 1/0 (representation): compare integers by their text, floats after
+// rounding to six decimals, booleans as true/false.
+func canonListElem(s string, k model.Kind) string {
+	switch k {
+	case model.KInt:
+		if i, err := strconv.ParseInt(s, 10, 64); err == nil {
+			return "i" + strconv.FormatInt(i, 10)
+		}
+	case model.KFloat:
+		if f, err := strconv.ParseFloat(s, 64); err == nil {
+			return "f" + strconv.FormatFloat(f, 'f', 6, 64)
+		}
+	case model.KBool:
+		switch s {
+		case "1", "true":
+			return "btrue"
+		case "0", "false":
+			return "bfalse"
+		}
+	}
+	return "?" + s
 }
 
 // unstableMeasure: measures whose value legitimately depends on layout for this dataset.
@@ -537,9 +765,24 @@ func unstableMeasure(m model.Measure, kinds map[string]map[model.Kind]bool, tsTi
 	return false
 }
 
-// treeSafe: by-keys are pure strings and every measure is count/sum/min/max/avg over a pure-integer column
-// that is not itself a by-column.
+// treeFn: the functions the pre-aggregated tree keeps per measure column (avg and range are derived).
+func treeFn(fn string) bool {
+	switch fn {
+	case "count", "sum", "min", "max", "avg", "range":
+		return true
+	}
+	return false
+}
+
+// treeSafe: the answer does not fall into the class of the open finding C03-agiletree. Either some measure
+// uses a function the tree does not keep (then the whole query is computed from the records), or the
+// by-keys are pure strings and every measure aggregates a pure-integer column that is not itself a by-column.
 func treeSafe(st *model.StatsQuery, kinds map[string]map[model.Kind]bool) bool {
+	for _, m := range st.Measures {
+		if !treeFn(m.Fn) {
+			return true
+		}
+	}
 	by := map[string]bool{}
 	for _, b := range st.By {
 		by[b] = true
@@ -548,11 +791,6 @@ func treeSafe(st *model.StatsQuery, kinds map[string]map[model.Kind]bool) bool {
 		}
 	}
 	for _, m := range st.Measures {
-		switch m.Fn {
-		case "count", "sum", "min", "max", "avg":
-		default:
-			return false
-		}
 		if m.Field == "" {
 			continue
 		}
